@@ -139,6 +139,35 @@ CHECKS = {
         "reason each qualifies (wc.edac.MomentumEquationPressureGradient is "
         "excluded: it subtracts the destination's own average pressure)."),
   technique="property-based testing (Hypothesis) with a physical invariant (metamorphic a<->b symmetry) as oracle"),
+ 'C07': dict(
+  text=("Generated boxes (far origins, thin boxes), periodic/mirror flags "
+        "per axis, n_layers 1-3, 1-3 arrays with particles on/just outside "
+        "faces and in corners, per-particle h, copied-property subsets and "
+        "typed/strided extra properties, then 1-5 rounds of move / change h "
+        "/ update through three NNPS classes and the bare DomainManager; "
+        "ghosts are compared as multisets of full records with a closed-form "
+        "enumeration of images (per-axis option product), real particles "
+        "must only be wrapped, no accumulation over rounds, and a "
+        "neighbour-count completeness clause for periodic boxes."),
+  note=("Layer thickness T = n_layers*radius_scale*hmax over current real "
+        "particles (documented in the DomainManager docstring); particles "
+        "within 1e-12*L + 4 ulp of the threshold may go either way; NNPS "
+        "capacity rejections are accepted."),
+  technique="property-based testing (Hypothesis) against a closed-form reference enumeration of ghost images"),
+ 'C18': dict(
+  text=("controller.py of the tree under test is re-executed with its "
+        "threading primitives replaced by a deterministic scheduler that "
+        "owns the interleaving at lock/condition granularity; cases = "
+        "(well-formed interface programs for 1-2 interface threads + solver "
+        "control points, schedule) drawn by Hypothesis plus systematic "
+        "enumeration of all schedules with bounded preemptions for fixed "
+        "small programs; history invariants: every queued command runs once "
+        "inside a control point and its result is delivered, wait() returns "
+        "only with the solver held, no progress until cont(), no deadlock."),
+  note=("Interleavings at synchronisation-primitive granularity only "
+        "(no preemption inside a bytecode); Condition.notify wakes FIFO; "
+        "serial (DummyComm) runs."),
+  technique="schedule-controlled property-based testing (deterministic scheduler shim, Hypothesis-drawn and bounded-preemption enumerated schedules) with history invariants"),
 }
 
 NOT_APPLICABLE = [
